@@ -178,30 +178,41 @@ func (c IDPConf) EffectiveMethod() string {
 
 // Build constructs the IdP.
 func (c IDPConf) Build(reg saml.ServiceProviderProvider, sess saml.SessionProvider) *saml.IdentityProvider {
+	idp := &saml.IdentityProvider{Logger: &Quiet{}, ServiceProviderProvider: reg, SessionProvider: sess}
+	c.Apply(idp)
+	return idp
+}
+
+// Apply (re-)configures every public configuration field of a long-lived
+// IdentityProvider value in place; Logger, ServiceProviderProvider and
+// SessionProvider are kept.  What the IdP emits afterwards is judged against c.
+func (c IDPConf) Apply(idp *saml.IdentityProvider) {
 	kp := c.Keys()
 	mu, _ := url.Parse(c.EntityID())
 	su, _ := url.Parse(c.SSOURL())
-	idp := &saml.IdentityProvider{
-		Logger:                  &Quiet{},
-		Certificate:             kp.Cert,
-		MetadataURL:             *mu,
-		SSOURL:                  *su,
-		ServiceProviderProvider: reg,
-		SessionProvider:         sess,
-		SignatureMethod:         c.SigMethod,
-	}
+	idp.Certificate = kp.Cert
+	idp.MetadataURL = *mu
+	idp.SSOURL = *su
+	idp.SignatureMethod = c.SigMethod
+	idp.Key, idp.Signer = nil, nil
 	if c.Signer {
 		idp.Signer = OpaqueSigner{kp.Key}
 		if c.StaleKey {
-			idp.Key = fix.Get("idp2").Key
+			stale := "idp2"
+			if kp.Name == "idp2" {
+				stale = "idp"
+			}
+			idp.Key = fix.Get(stale).Key
 		}
 	} else {
 		idp.Key = kp.Key
 	}
+	idp.Intermediates = nil
 	extra := []string{"idp2", "idpenc"}
 	for i := 0; i < c.Intermediates && i < len(extra); i++ {
 		idp.Intermediates = append(idp.Intermediates, fix.Get(extra[i]).Cert)
 	}
+	idp.LogoutURL, idp.LoginURL = url.URL{}, url.URL{}
 	if c.Logout {
 		u, _ := url.Parse(c.LogoutURL())
 		idp.LogoutURL = *u
@@ -210,17 +221,19 @@ func (c IDPConf) Build(reg saml.ServiceProviderProvider, sess saml.SessionProvid
 		u, _ := url.Parse(c.LoginURL())
 		idp.LoginURL = *u
 	}
+	idp.ValidDuration = nil
 	if c.ValidHours != 0 {
 		d := time.Duration(c.ValidHours) * time.Hour
 		idp.ValidDuration = &d
 	}
+	idp.ResponseFormTemplate = nil
 	if c.Template {
 		idp.ResponseFormTemplate = altFormTemplate
 	}
+	idp.AssertionMaker = nil
 	if c.Maker {
 		idp.AssertionMaker = saml.DefaultAssertionMaker{}
 	}
-	return idp
 }
 
 // GenExtras fills the configuration fields no clause mentions from four drawn integers.
